@@ -14,8 +14,9 @@
 EXTENDS PickFirst, TraceIO
 VARIABLES l
 vars == <<b, l>>
-\* address 8 has the Addr string of address 1 and different Attributes: a different address
-Fam8 == <<4, 6, 4, 0, 6, 0, 4, 4>>
+\* address 8 has the Addr string of address 1 and different Attributes, address 9 the Addr string of address 2
+\* and a different ServerName: different addresses (identity = Addr + ServerName + Attributes)
+Fam9 == <<4, 6, 4, 0, 6, 0, 4, 4, 6>>
 Init == PInit /\ l = 1 /\ InitRegs
 Ev == Trace[l]
 Obs == Ev.obs
